@@ -454,6 +454,87 @@ Section NSim.
         rewrite filter_is_clock_other by exact Hne. apply QR.
     - rewrite P1. exact LR.
   Qed.
+
+  (* the common part of the tempo and of the beats setters: clock i gets related new maps, the non-real-time queue is re-timed *)
+  Lemma tc_set_beats_facts ta tb T T' v : tc_rel t0 ta tb -> wf_tc ta -> pos_tc ta -> T' == T + t0 ->
+    tc_rel t0 (tc_set_beats ta T v) (tc_set_beats tb T' v) /\ wf_tc (tc_set_beats ta T v) /\ pos_tc (tc_set_beats ta T v).
+  Proof.
+    intros (A & B & C & D) [W1 W2] [P1 P2] E. unfold tc_set_beats, tc_rel, wf_tc, pos_tc. cbn [t_tempo t_bdur t_bbeats t_bsecs].
+    rewrite !Qred_correct. split; [|split].
+    - split; [exact A|]. split; [rewrite A; reflexivity|]. split; [reflexivity|]. rewrite E. reflexivity.
+    - split; [exact W1|]. field. exact W1.
+    - split; [exact P1|]. apply Qlt_shift_div_l; lra.
+  Qed.
+
+  Lemma retime_sim2 na nb i ta tb ta' tb' ev ev' : nsim2 t0 na nb ->
+    nth_error (n_tcs na) i = Some ta -> nth_error (n_tcs nb) i = Some tb ->
+    tc_rel t0 ta' tb' -> wf_tc ta' -> pos_tc ta' -> ev_sim t0 ev ev' ->
+    nsim2 t0 (add_log (retime (set_tcs na (set_nth (n_tcs na) i ta')) i) ev) (add_log (set_tcs nb (set_nth (n_tcs nb) i tb')) ev').
+  Proof.
+    intros S Ea Eb Hs Wt Pt Hev. pose proof S as [QA QB AS TR QR LR].
+    apply add_log_sim2; [|exact Hev].
+    set (st1 := set_tcs na (set_nth (n_tcs na) i ta')).
+    set (st1b := set_tcs nb (set_nth (n_tcs nb) i tb')).
+    destruct (retime_proj st1 i) as (P1 & P2 & P3 & _).
+    destruct AS as [W P E]. destruct QA as [SA CA].
+    assert (W' : wf_tcs (n_tcs st1)) by (apply wf_tcs_set; auto).
+    assert (P' : pos_tcs (n_tcs st1)) by (apply pos_tcs_set; auto).
+    (* the clock-i entries, in queue order, have non-decreasing beats *)
+    set (mine := filter (is_clock (CTempo i)) (n_q na)).
+    assert (Hmine : StronglySorted (fun y z => e_beats y <= e_beats z) mine).
+    { apply (sorted_impl (lex_lt e_time e_cnt)); [apply ksorted_filter; exact SA|].
+      intros a b Ha Hb Hab. apply filter_In in Ha. apply filter_In in Hb.
+      destruct Ha as [Ha Hac]. destruct Hb as [Hb Hbc]. apply is_clock_true in Hac. apply is_clock_true in Hbc.
+      destruct (E a Ha) as (Ka & _). destruct (E b Hb) as (Kb & _). rewrite Hac in Ka. rewrite Hbc in Kb.
+      apply (b2s_le_iff (n_tcs na) (CTempo i)); auto. rewrite <- Ka, <- Kb. destruct Hab as [H|[H _]]; lra. }
+    destruct (repush_filter_same (CTempo i) mine (set_q st1 (filter (fun e => negb (is_clock (CTempo i) e)) (n_q st1))))
+      as (l' & El & Fl); auto.
+    { cbn [n_q set_q]. apply ksorted_filter. exact SA. }
+    { cbn [n_q n_qcnt set_q]. intros e He. apply filter_In in He. apply CA. tauto. }
+    { cbn [n_q set_q]. intros y b Hy Hb. apply filter_In in Hy. destruct Hy as [Hy Hc]. apply filter_In in Hy.
+      destruct Hy as [_ Hy]. rewrite Hc in Hy. discriminate. }
+    assert (Eret : fold_left (repush (CTempo i)) mine (set_q st1 (filter (fun e => negb (is_clock (CTempo i) e)) (n_q st1))) = retime st1 i) by reflexivity.
+    rewrite Eret in El.
+    assert (Enone : filter (is_clock (CTempo i)) (n_q (set_q st1 (filter (fun e => negb (is_clock (CTempo i) e)) (n_q st1)))) = []).
+    { cbn [n_q set_q]. rewrite filter_filter_comm. apply filter_neg_pos. }
+    rewrite Enone in El. simpl in El.
+    destruct (repush_fold_sorted (CTempo i) (filter (is_clock (CTempo i)) (n_q st1))
+                (set_q st1 (filter (fun e => negb (is_clock (CTempo i) e)) (n_q st1)))) as (S1 & S2).
+    { cbn [n_q set_q]. apply ksorted_filter. exact SA. }
+    { cbn [n_q n_qcnt set_q]. intros e He. apply filter_In in He. apply CA. tauto. }
+    rewrite <- retime_unfold in S1, S2.
+    constructor.
+    - split; auto.
+    - exact QB.
+    - constructor; rewrite ?P3; auto.
+      intros e' He'. destruct (retime_in _ _ _ He') as [[Hin Hc]|(e & Hin & Hce & R1 & R2 & R3 & R4)].
+      + destruct (E e' Hin) as (K1 & K2 & K3). split; [|split; auto].
+        * cbn [n_tcs st1 set_tcs]. rewrite b2s_set_other; auto.
+        * apply clock_ok_set. exact K3.
+      + destruct (E e Hin) as (K1 & K2 & K3). rewrite R2. split; [|split].
+        * rewrite R4. apply b2s_comp. symmetry. exact R3.
+        * discriminate.
+        * apply clock_ok_set. rewrite <- Hce. exact K3.
+    - rewrite P3. cbn [n_tcs st1 st1b set_tcs]. apply Forall2_set_nth; auto.
+    - intros c. cbn [n_q st1b set_tcs add_log].
+      destruct (clock_eqb c (CTempo i)) eqn:Ec.
+      + assert (c = CTempo i) as -> by (destruct c; simpl in Ec; try discriminate; apply Nat.eqb_eq in Ec; congruence).
+        rewrite El. specialize (QR (CTempo i)). fold mine in QR.
+        assert (Hcl : Forall (fun y => e_clock y = CTempo i) mine).
+        { apply Forall_forall. intros y Hy. apply filter_In in Hy. apply is_clock_true. tauto. }
+        clear -Fl QR Hcl. revert QR Hcl. generalize (filter (is_clock (CTempo i)) (n_q nb)).
+        induction Fl as [|x y lx ly Hxy F IH]; intros lb QR Hcl; inversion QR; subst; constructor.
+        * inversion Hcl as [|? ? Yc _]; subst.
+          destruct Hxy as (X1 & X2 & X3 & X4). destruct H1 as (Y1 & Y2 & Y3). rewrite Yc in Y3.
+          unfold ent_rel. rewrite X1, X2. repeat split; try congruence. rewrite Y3, X3. reflexivity.
+        * apply IH; auto. inversion Hcl; auto.
+      + assert (Hne : c <> CTempo i).
+        { intros ->. simpl in Ec. rewrite Nat.eqb_refl in Ec. discriminate. }
+        rewrite retime_unfold. rewrite repush_filter_other by exact Hne. cbn [n_q set_q st1 set_tcs].
+        rewrite filter_is_clock_other by exact Hne. apply QR.
+    - rewrite P1. exact LR.
+  Qed.
+
 End NSim.
 
 (* ---- xstate level ------------------------------------------------------------------------------------------ *)
@@ -605,6 +686,28 @@ Section XSim2.
       rewrite A2. exact Hce.
   Qed.
 
+  Lemma x_setbeats_sim2 a b rid k T T' i v : sim2 a b -> T' == T + t0 ->
+    psim2 (x_setbeats None a rid k T i v) (x_setbeats (Some off) b rid k T' i v).
+  Proof.
+    intros S Ht. pose proof S as S'. unpack2 S'. unfold psim2, x_setbeats.
+    pose proof (tcs_rel_nth t0 _ _ i (n2_tcs _ _ _ N)) as Hn.
+    destruct (nth_error (n_tcs (x_n a)) i) as [ta|] eqn:Ea; destruct (nth_error (n_tcs (x_n b)) i) as [tb|] eqn:Eb; try tauto; try (split; auto; fail).
+    cbn [fst snd]. split; auto.
+    pose proof (n2_a _ _ _ N) as [W P E].
+    assert (Wta : wf_tc ta) by (unfold wf_tcs in W; rewrite Forall_forall in W; apply W; eapply nth_error_In; eauto).
+    assert (Pta : pos_tc ta) by (unfold pos_tcs in P; rewrite Forall_forall in P; apply P; eapply nth_error_In; eauto).
+    destruct (tc_set_beats_facts t0 ta tb T T' v Hn Wta Pta Ht) as (R1 & R2 & R3).
+    apply sim2_set_n; auto.
+    - apply (retime_sim2 t0 _ _ i ta tb); auto. simpl. auto.
+    - cbn [n_tcs add_log].
+      match goal with |- context [retime ?s ?j] => destruct (retime_proj s j) as (_ & _ & P3 & _) end.
+      rewrite P3. cbn [n_tcs set_tcs]. rewrite set_nth_length. exact HL.
+    - intros e He. cbn [n_q add_log] in He.
+      destruct (retime_in _ _ _ He) as [[Hin _]|(e0 & Hin & Hce & R1' & R2' & _)]; [left; exact Hin|].
+      right. simpl in Hin. destruct (QC e0 Hin) as (r0 & A1 & A2). exists r0. rewrite R1', R2'. split; auto.
+      rewrite A2. exact Hce.
+  Qed.
+
   Lemma x_seed_sim2 a b rid s : sim2 a b -> psim2 (x_seed a rid s) (x_seed b rid s).
   Proof.
     intros S. pose proof S as S'. unpack2 S'. unfold psim2, x_seed. cbn [fst snd]. split; auto. rewrite H0.
@@ -687,6 +790,7 @@ Section XSim2.
       + apply STEP. apply x_play_sim2; auto.
       + apply STEP. apply x_play_sim2; auto.
       + apply STEP. apply x_tempo_sim2; auto.
+      + apply STEP. apply x_setbeats_sim2; auto.
       + apply STEP. apply x_seed_sim2; auto.
       + apply STEP. apply x_draw_sim2; auto.
       + rewrite H1. destruct (nth_error (x_conds a) c) as [[t ws]|]; [|simpl; auto].
@@ -790,6 +894,7 @@ Proof.
     destruct (clock_ok (n_tcs (x_n st)) cclk && clock_ok_mode rt cclk); [|apply keeps_refl].
     intros rid0 r0 H. exists r0. simpl. split; auto. rewrite nth_error_app1; auto. apply nth_error_Some. rewrite H. discriminate.
   - apply keeps_same. reflexivity.
+  - unfold x_setbeats. destruct (nth_error (n_tcs (x_n st)) i); [apply keeps_same; reflexivity|apply keeps_refl].
   - unfold x_seed. cbn [fst]. eapply keeps_trans; [apply (keeps_same st (set_gens st (x_gens st ++ [(s, [])]))); reflexivity|]. apply keeps_upd. reflexivity.
   - unfold x_draw. destruct (nth_error (x_routs st) rid); [|apply keeps_refl].
     destruct (nth_error (x_gens st) (xr_gen x)) as [[sd h]|]; [apply keeps_same; reflexivity|apply keeps_refl].
